@@ -795,6 +795,18 @@ def plan(pid: str, tier: str, rng: random.Random) -> list[dict]:
                 for kind in ("before", "after", "on_failure"):
                     for ch in st.get(kind, []):
                         add(kind="policy", policy="starve:" + ch["ref"], spec=spec, name=name)
+    if pid in ("C05",):
+        # the explicit waiting states: paused (and resumed), suspended (and signalled) - after the resume / the signal the
+        # workflow must finish; while parked it must be waiting, not stuck
+        for n in ("chain3", "multitask", "diamond", "poll", "syn_before_after"):
+            for at in range(1, 14 if thorough else 10):
+                for ua in (at + 2, at + 5, None):
+                    add(kind="inject", what="pause", at=at, unpause_at=ua, spec=fam[n], name=n, policy=("fifo" if at % 2 else "random"),
+                        cancel_with_unpause=False)
+        for n, stage in (("suspend", 0), ("mutex_suspend", 1)):
+            for at in range(0, 14):
+                add(kind="inject", what="signal", stage=stage, signame=1, persistent=True, at=at, spec=fam[n], name=n,
+                    policy=("fifo" if at % 2 else "random"))
     if pid in ("C01", "C06", "C13"):
         names = list(fam) if thorough else CRASH_QUICK
         # every commit of the uninterrupted FIFO run is a crash point: measure the runs first
@@ -993,7 +1005,7 @@ def monitor(pid: str, out: dict, base: dict | None) -> list[Violation]:
         vs += M.m_c03(out)
     if pid == "C11":
         vs += M.m_c11(out)
-    if pid == "C05" and crashfree:
+    if pid == "C05" and (crashfree or (kind == "inject" and what in ("pause", "signal"))):
         vs += M.m_c05(out)
     if pid == "C01" and kind == "crash" and base is not None:
         vs += M.m_c01(out, base)
